@@ -438,8 +438,13 @@ impl Containers {
                         t.reduce();
                     }
                     // sub: select coordinates
+                    // sub: proper selections, full-length reorderings, repeated indices
+                    let mut idx_lists: Vec<Vec<usize>> = vec![(0..p).rev().step_by(2).collect(), (0..p).rev().collect(), (0..p).collect(), vec![]];
                     if p >= 1 {
-                        let idx: Vec<usize> = (0..p).rev().step_by(2).collect();
+                        idx_lists.push((0..p).map(|i| if i == 1 { 0 } else { i }).collect());
+                        idx_lists.push(vec![p - 1]);
+                    }
+                    for idx in idx_lists {
                         let s = t.sub(&idx);
                         let wf: Grid<I> = idx.iter().map(|&i| want_f[i].clone()).collect();
                         eq_sp(&format!("sub.forward_mat (order {})", order), &s.forward_mat(), &wf, idx.len(), n);
